@@ -89,6 +89,30 @@ class C02(Property):
                                           tags={"role": "respell", "group": gid, "form": form, "name": nm,
                                                 "value": p.chunk.value, "from": p.chunk.form, "node": p.chunk.node}))
                         j += 1
+                # byte-exact delivery: for an OsString / PathBuf argument the outcome may depend on the value only through the
+                # value itself -- an ASCII value and a non-UTF-8 value in the same spelling (`--name=V`, `--name V`, `-n V`;
+                # single-byte short names only, see the known findings) are accepted alike and come back byte for byte
+                bj = 0
+                transformed = set(id(y) for x in gen.walk(opts) if x["k"] in ("guard", "parse", "map", "count", "last") for y in gen.walk(x["p"]))
+                for ix, p in enumerate(pieces):
+                    if p.kind != "chunk" or p.chunk.node["k"] != "arg" or p.chunk.node["ty"] not in ("osstring", "pathbuf"):
+                        continue
+                    if id(p.chunk.node) in transformed:
+                        continue            # the value is checked or rewritten by a user closure before it is returned
+                    if bj >= 2:
+                        break
+                    va, vb = b"plainvalue7", rng.choice([b"nv\xff\xfe7", b"caf\xe9.txt", b"\x80\x81", b"ok\xc3"])
+                    sps = [(f, nm, it) for f, nm, it in common.spellings(p.chunk.node, va)
+                           if f in ("long_eq", "long_sep", "short_sep") or (f == "short_eq" and len(nm.encode()) == 1)]
+                    if not sps:
+                        continue
+                    form, nm, _ = rng.choice(sps)
+                    for tag, v in (("a", va), ("b", vb)):
+                        items = [it for f, m, it in common.spellings(p.chunk.node, v) if f == form and m == nm][0]
+                        argv = gen.flatten(pieces[:ix]) + items + gen.flatten(pieces[ix + 1:])
+                        cases.append(Case("%sy%d%s" % (gid, bj, tag), opts, argv,
+                                          tags={"role": "bytes-" + tag, "group": gid, "pair": "%sy%d" % (gid, bj), "value": v, "form": form}))
+                    bj += 1
                 # clusters: merge runs of single short flags
                 argv2, merged = self.cluster(pieces)
                 if merged:
@@ -157,6 +181,24 @@ class C02(Property):
                     if role == "respell" else "clustering short flags %r" % (c.tags.get("letters"),)
                 out.append(Finding("violation", c, "%s changed the outcome: %s  vs  %s" % (
                     what, common.show(impl.get(b.id)), common.show(impl.get(c.id))), related=[b]))
+        pairs = {}
+        for c in cases:
+            if c.tags.get("role", "").startswith("bytes-"):
+                pairs.setdefault(c.tags["pair"], {})[c.tags["role"][-1]] = c
+        for pr in pairs.values():
+            if "a" not in pr or "b" not in pr:
+                continue
+            ca, cb = pr["a"], pr["b"]
+            ia, ib = impl.get(ca.id), impl.get(cb.id)
+            dist["bytes:" + ca.tags["form"]] = dist.get("bytes:" + ca.tags["form"], 0) + 1
+            pa, pb = common.impl_cv(ia), common.impl_cv(ib)
+            if pa[0] == "OK":
+                nontrivial.append(cb.line())
+                want = pa[1].replace("(bytes %s)" % gen.hx(ca.tags["value"]), "(bytes %s)" % gen.hx(cb.tags["value"]))
+                if pb[0] != "OK" or pb[1] != want:
+                    out.append(Finding("violation", cb, "an OsString/PathBuf argument given %r is accepted, given the bytes %r in the same "
+                                                        "place and spelling (%s) it is not delivered byte for byte: %s  vs  %s"
+                                       % (ca.tags["value"], cb.tags["value"], ca.tags["form"], common.show(ia), common.show(ib)), related=[ca]))
         stats = {"nontrivial_ids": nontrivial, "distribution": dist,
                  "rule": "random definitions x sentences; every argument occurrence respelled into every other admissible "
                          "spelling (long/short x separated/=/adjacent; separated only for values that tokenize as a word), "
